@@ -67,3 +67,17 @@ func lowerc(c byte) byte {
 func cieq(a, b []byte) bool {
 	return len(a) == len(b) && forall(0, len(a), func(k int) bool { return lowerc(a[k]) == lowerc(b[k]) })
 }
+
+// fbOK: a name-addr parser state that the parser itself could have left behind
+// when suspended at offset i with component start s.
+func fbOK(p *PFromBody, i int, s int) bool {
+	return p.state <= fbFIN && 0 <= s && s <= i &&
+		within(p.Name, i) && within(p.URI, i) && within(p.Tag, i) && within(p.Params, i) && within(p.V, i) &&
+		0 <= p.pstart && p.pstart <= i && 0 <= p.pend && p.pend <= i &&
+		0 <= p.vstart && p.vstart <= i && 0 <= p.vend && p.vend <= i &&
+		(p.Params.Offs != 0 || p.Params.Len == 0)
+}
+
+func fbWithin(p *PFromBody, hi int) bool {
+	return within(p.Name, hi) && within(p.URI, hi) && within(p.Tag, hi) && within(p.Params, hi) && within(p.V, hi)
+}
